@@ -125,6 +125,8 @@ class FnTranslator:
             parts = []
             for v in e.values:
                 a, ta = self.expr(v, env)
+                if ta == "bytes":      # truth value of a byte string: non-empty
+                    a, ta = f"(negb (bytes_is_empty {a}))", "bool"
                 self.want(v, ta, "bool")
                 parts.append(a)
             op = " && " if isinstance(e.op, ast.And) else " || "
@@ -233,6 +235,11 @@ class FnTranslator:
                 return f"(sorted_set {a})", "lZ"
             if isinstance(e.func, ast.Attribute):
                 meth = e.func.attr
+                if meth == "endswith" and len(e.args) == 1:
+                    a, ta = self.expr(e.func.value, env)
+                    b, tb = self.expr(e.args[0], env)
+                    if ta == "bytes" and tb == "bytes":
+                        return f"(bytes_endswith {a} {b})", "bool"
                 if meth == "startswith" and len(e.args) == 1:
                     a, ta = self.expr(e.func.value, env)
                     b, tb = self.expr(e.args[0], env)
@@ -273,6 +280,8 @@ class FnTranslator:
 
         for s in stmts:
             for n in ast.walk(s):
+                if isinstance(n, ast.AugAssign) and isinstance(n.target, ast.Name):
+                    add(n.target.id)
                 if isinstance(n, ast.Assign):
                     for t in n.targets:
                         if isinstance(t, ast.Name):
@@ -299,6 +308,13 @@ class FnTranslator:
         s, rest = stmts[0], stmts[1:]
         cont = lambda env2: self.block(rest, env2, k)  # noqa: E731
 
+        # x += e  is  x = x + e
+        if isinstance(s, ast.AugAssign) and isinstance(s.target, ast.Name):
+            s2 = ast.Assign(targets=[ast.Name(id=s.target.id, ctx=ast.Store())],
+                            value=ast.BinOp(left=ast.Name(id=s.target.id, ctx=ast.Load()), op=s.op, right=s.value))
+            ast.copy_location(s2, s)
+            ast.fix_missing_locations(s2)
+            return self.block([s2] + rest, env, k)
         # docstrings, logging, asserts-for-mypy
         if isinstance(s, ast.Expr) and isinstance(s.value, ast.Constant) and isinstance(s.value.value, str):
             return cont(env)
@@ -637,7 +653,9 @@ def gen_dotstuff(repo: Path) -> str:
     src = repo / "asimap/pop3_client.py"
     tree = ast.parse(src.read_text())
     tr = FnTranslator(find_fn(tree, "dot_stuff"), {"params": [("data", "bytes")], "ret": "bytes"}, {})
-    return HEADER.format(src="asimap/pop3_client.py", extra=" Base.Bytes") + tr.translate({"result": "lbytes"})
+    out = HEADER.format(src="asimap/pop3_client.py", extra=" Base.Bytes") + tr.translate({"result": "lbytes"})
+    tr2 = FnTranslator(find_fn(tree, "end_multiline"), {"params": [("data", "bytes")], "ret": "bytes"}, {})
+    return out + "\n" + tr2.translate({})
 
 
 def gen_quote(repo: Path) -> str:
